@@ -112,13 +112,6 @@ def same_list(xs, ys):
     return len(xs) == len(ys) and all(same(x, y) for x, y in zip(xs, ys))
 
 
-def as_cells(value):
-    """what the column store makes of an assigned value (None/scalar -> one cell, list/tuple -> its cells)"""
-    if isinstance(value, (list, tuple)):
-        return list(value)
-    return [value]
-
-
 def raw(d):
     """the column store, read without going through any dictable method"""
     return {k: dict.__getitem__(d, k) for k in dict.keys(d)}
